@@ -3,6 +3,7 @@ Core-only so that it links as a `lean_exe`. -/
 import OsmoVerif.Model.DrvNum
 import OsmoVerif.Model.DrvMath
 import OsmoVerif.Model.DrvMint
+import OsmoVerif.Model.DrvSuperfluid
 import OsmoVerif.Model.DrvGamm4
 import OsmoVerif.Model.DrvIncentives
 import OsmoVerif.Model.DrvRouter
@@ -20,6 +21,7 @@ open OsmoVerif
 
 structure St where
   mint : Mint.DrvState := Mint.initMint
+  superfluid : Superfluid.DrvState := Superfluid.initSuperfluid
   incentives : Incentives.State := Incentives.initIncentives
   router : Router.FeeCfg := Router.initRouter
   twap : Twap.DrvState := Twap.initTwap
@@ -50,6 +52,7 @@ def step (st : St) (line : String) : St × String :=
   | "router" :: op :: args => let (x, o) := Router.stepRouter st.router op args; ({ st with router := x }, o)
   | "incentives" :: op :: args => let (x, o) := Incentives.stepIncentives st.incentives op args; ({ st with incentives := x }, o)
   | "gammmath" :: op :: args => (st, GammMath.stepGammMath op args)
+  | "superfluid" :: op :: args => let (x, o) := Superfluid.stepSuperfluid st.superfluid op args; ({ st with superfluid := x }, o)
   | "mint" :: op :: args => let (m, o) := Mint.stepMint st.mint op args; ({ st with mint := m }, o)
   | _ => (st, "bad-op")
 
